@@ -26,14 +26,14 @@ CURVES = ["standard_inverse", "very_inverse", "extremely_inverse", "long_inverse
 FUSE_TYPES = ["Siemens NH-2-315", "Siemens NH-2-425", "Siemens NH-2-630", "Siemens NH-2-224", "HV 63A"]
 
 
-def relay_net():
+def relay_net(switch_index=None):
     net = pp.create_empty_network()
     pp.create_buses(net, nr_buses=7, vn_kv=20, geodata=[(0, 0), (0, -1), (-2, -2), (-2, -4), (2, -2), (2, -3), (2, -4)])
     pp.create_ext_grid(net, 0, vm_pu=1.0, va_degree=0, s_sc_max_mva=100, s_sc_min_mva=50, rx_max=0.1, rx_min=0.1)
     pp.create_lines(net, from_buses=[0, 1, 2, 1, 4, 5], to_buses=[1, 2, 3, 4, 5, 6], length_km=[2, 5, 4, 4, 0.5, 0.5],
                     std_type="NAYY 4x50 SE")
     net.line["endtemp_degree"] = 250
-    pp.create_switches(net, buses=[0, 1, 1, 2, 4, 5], elements=[0, 1, 3, 2, 4, 5], et='l', type="CB_DTOC")
+    pp.create_switches(net, buses=[0, 1, 1, 2, 4, 5], elements=[0, 1, 3, 2, 4, 5], et='l', type="CB_DTOC", index=switch_index)
     pp.create_loads(net, buses=[3, 6], p_mw=[5, 2], q_mvar=[1, 1])
     return net
 
@@ -51,7 +51,8 @@ class Devices:
         for c in CURVES[1:]:
             self.idtoc[c] = OCRelay(n, switch_index=5, oc_relay_type="IDTOC", time_settings=[0.07, 0.5, 0.3, 1, 0.5], curve_type=c,
                                     overwrite=True)
-        self.fuse_net = relay_net()
+        # the fuses sit in a net whose switch table has a shuffled, gapped index (as after dropping / re-creating switches)
+        self.fuse_net = relay_net(switch_index=[7, 3, 12, 0, 5, 9])
 
 
 def grid(rng, lo, hi, k=64):
@@ -75,20 +76,29 @@ def sweep(rng, thresholds, lo, hi):
     return pts
 
 
-def call(dev, net, sw, cur, scenario, other):
-    n_sw = len(net.switch)
-    a = [other] * n_sw
-    b_ = [other] * n_sw
+def call(dev, net, sw, cur, scenario, other, rng=None):
+    """stub both result tables: the device's switch (label sw) carries `cur` in the table of the scenario, every other row
+    and the other table carry different values; the rows are in shuffled order, so reading by position, from another
+    switch or from the wrong table is visible in the returned activation value"""
+    labels = list(net.switch.index)
+    if rng is not None:
+        labels = rng.sample(labels, len(labels))
+    if other != other:
+        fill = {l: float("nan") for l in labels}
+    else:
+        fill = {l: other + 1.0 + 0.25 * j for j, l in enumerate(labels)}
+    a = dict(fill)
+    b_ = {l: v + 100.0 for l, v in fill.items()}
     if scenario == "sc":
         a[sw] = cur
     else:
         b_[sw] = cur
-    net["res_switch_sc"] = pd.DataFrame({"ikss_ka": a}, index=net.switch.index)
-    net["res_switch"] = pd.DataFrame({"i_ka": b_}, index=net.switch.index)
+    net["res_switch_sc"] = pd.DataFrame({"ikss_ka": [a[l] for l in labels]}, index=labels)
+    net["res_switch"] = pd.DataFrame({"i_ka": [b_[l] for l in labels]}, index=labels)
     try:
         return dev.protection_function(net, scenario)
-    except ValueError:
-        return cq.Err("ValueError")
+    except Exception as e:          # ValueError is the documented answer to an invalid scenario; anything else is a failure
+        return cq.Err(type(e).__name__)
 
 
 def tval(x):
@@ -114,7 +124,7 @@ def one_case(ctx, rng, D):
     graded = True
     if kind == "fuse":
         net = D.fuse_net
-        sw = rng.randrange(6)
+        sw = int(rng.choice(list(net.switch.index)))
         if rng.random() < 0.3:
             f = Fuse(net, switch_index=sw, fuse_type=rng.choice(FUSE_TYPES), curve_select=rng.choice([0, 1]), overwrite=True)
             desc["fuse_type"] = f.fuse_type
@@ -142,13 +152,13 @@ def one_case(ctx, rng, D):
         curs = sweep(rng, [i_start / 1000, i_stop / 1000], 0.0, i_stop / 1000 * 1.5)
         desc.update(i_start_a=i_start, i_stop_a=i_stop, currents=[None if x != x else x for x in curs])
         for cur in curs:
-            r = call(f, net, sw, cur, scenario, other)
+            r = call(f, net, sw, cur, scenario, other, rng)
             ia = cur * 1000
             cv = float(c(ia)) if (cur == cur and i_start <= ia <= i_stop) else 0.0
             impl.append(r)
             # the impl compares the float product i_ka*1000: give the model the rational whose exact product with 1000 is that float
             curm = Fraction(float(np.float64(cur) * 1000)) / 1000 if cur == cur else cur
-            sc_v, pp_v = (curm, other) if scenario == "sc" else (other, curm)
+            sc_v, pp_v = (curm, other) if scenario == "sc" else (other, curm)   # the unselected table is irrelevant to the result
             terms.append("run_fuse %s %s %s %s %s %s" % (cq.q(i_start), cq.q(i_stop), cq.q(cv), scen_term(scenario), fz(sc_v), fz(pp_v)))
         pick = ("fuse", i_start / 1000)
         graded = mono
@@ -198,7 +208,7 @@ def one_case(ctx, rng, D):
         desc.update({k: getattr(dev, k) for k in ("I_s", "I_g", "I_gg", "t_g", "t_gg", "tms", "t_grade") if getattr(dev, k, None) is not None})
         desc["currents"] = [None if x != x else x for x in curs]
         for cur in curs:
-            r = call(dev, net, sw, cur, scenario, other)
+            r = call(dev, net, sw, cur, scenario, other, rng)
             impl.append(r)
             sc_v, pp_v = (cur, other) if scenario == "sc" else (other, cur)
             args = "%s %s %s" % (scen_term(scenario), fz(sc_v), fz(pp_v))
@@ -220,7 +230,8 @@ def one_case(ctx, rng, D):
         prev = None
         for cur, r in zip(curs, impl):
             if isinstance(r, cq.Err):
-                viol.append(("spec", "valid scenario raised"))
+                viol.append(("spec", "protection_function raised %s for the valid scenario %r (switch %r, switch table index %s)" % (
+                    r.s, scenario, sw, list(net.switch.index))))
                 break
             t = r["trip_melt_time_s"]
             av = r["activation_parameter_value"]
@@ -246,7 +257,7 @@ def one_case(ctx, rng, D):
                     viol.append(("spec", "trip time increases with the current: t(%r) = %r > t(%r) = %r" % (cur, t, pc_, pt)))
             prev = (cur, t)
     else:
-        if not all(isinstance(r, cq.Err) for r in impl):
+        if not all(r == cq.Err("ValueError") for r in impl):
             viol.append(("spec", "invalid scenario did not raise ValueError"))
     seen = set()
     for kind_, what in viol:
@@ -307,6 +318,8 @@ def run(ctx):
             ctx.disagreement("protection_function differs from the model: " + w, desc)
     for k in range(ctx.n(8, 60)):
         manual_pickup(ctx, rng, D)
+    for k in range(ctx.n(12, 80)):
+        manual_times(ctx, rng, D)
 
 
 def manual_pickup(ctx, rng, D):
@@ -327,10 +340,64 @@ def manual_pickup(ctx, rng, D):
         return
     # a current between I> and I>> must trip with t>, not earlier
     cur = (vals["I_g"][sw] + vals["I_gg"][sw]) / 2
-    res = call(r, net, sw, cur, "sc", 0.0)
+    res = call(r, net, sw, cur, "sc", 0.0, rng)
     if not res["trip_melt"] or res["trip_melt_time_s"] != r.t_g:
         ctx.violation("spec", "current %r between I>=%r and I>>=%r trips after %r s instead of t>=%r" % (
             cur, r.I_g, r.I_gg, res["trip_melt_time_s"], r.t_g), case)
+
+
+def manual_times(ctx, rng, D):
+    """the times given by the user are the times the relay trips with (time_settings as DataFrame and as list), and across
+    the two DTOC stages the tripping time does not increase with the current"""
+    net = D.net
+    sw = rng.randrange(6)
+    vals = {"I_gg": [grid(rng, 1.0, 3.0) for _ in range(6)], "I_g": [grid(rng, 0.2, 0.9) for _ in range(6)], "I_s": [grid(rng, 0.05, 0.19) for _ in range(6)]}
+    man = pd.DataFrame({"switch_id": range(6), **vals})
+    mode = rng.choice(["dtoc_df", "dtoc_df", "idmt_df", "dtoc_list", "idmt_list"])
+    case = {"mode": mode, "switch": sw}
+    if mode == "dtoc_df":
+        tgg = [rng.choice([0.05, 0.07, 0.1]) for _ in range(6)]
+        tg = [rng.choice([0.3, 0.5, 0.8, 1.4]) for _ in range(6)]
+        ts = pd.DataFrame({"switch_id": range(6), "t_gg": tgg, "t_g": tg})
+        r = OCRelay(net, switch_index=sw, oc_relay_type="DTOC", time_settings=ts, pickup_current_manual=man, overwrite=True)
+        exp_tg, exp_tgg = tg[sw], tgg[sw]
+    elif mode == "dtoc_list":
+        lst = [rng.choice([0.05, 0.07]), rng.choice([0.4, 0.5]), rng.choice([0.2, 0.3])]
+        r = OCRelay(net, switch_index=sw, oc_relay_type="DTOC", time_settings=lst, pickup_current_manual=man, overwrite=True)
+        exp_tgg = lst[0]
+        exp_tg = None
+        k = (r.t_g - lst[1]) / lst[2]
+        if r.t_g < lst[1] - 1e-12 or abs(k - round(k)) > 1e-9 or round(k) > len(net.line):
+            ctx.violation("spec", "list time settings %s: t> = %r is not t> + k*t_diff for a line depth k" % (lst, r.t_g), case)
+    elif mode == "idmt_df":
+        tms = [rng.choice([0.5, 1.0, 1.5]) for _ in range(6)]
+        tgr = [rng.choice([0.0, 0.3, 0.5]) for _ in range(6)]
+        ts = pd.DataFrame({"switch_id": range(6), "tms": tms, "t_grade": tgr})
+        r = OCRelay(net, switch_index=sw, oc_relay_type="IDMT", time_settings=ts, pickup_current_manual=man, overwrite=True)
+        if r.tms != tms[sw] or r.t_grade != tgr[sw]:
+            ctx.violation("spec", "IDMT DataFrame time settings not used: relay tms=%r t_grade=%r, given %r / %r" % (r.tms, r.t_grade, tms[sw], tgr[sw]), case)
+        exp_tg = exp_tgg = None
+    else:
+        lst = [rng.choice([0.5, 1.0]), rng.choice([0.3, 0.5])]
+        r = OCRelay(net, switch_index=sw, oc_relay_type="IDMT", time_settings=lst, pickup_current_manual=man, overwrite=True)
+        if r.tms != lst[0]:
+            ctx.violation("spec", "IDMT list time settings: tms %r, given %r" % (r.tms, lst[0]), case)
+        exp_tg = exp_tgg = None
+    ctx.case(case, nontrivial=True)
+    ctx.count("manual_times_" + mode)
+    if mode.startswith("dtoc"):
+        if r.t_gg != exp_tgg or (exp_tg is not None and r.t_g != exp_tg):
+            ctx.violation("spec", "DTOC time settings not used: relay t>=%r t>>=%r, given t>=%r t>>=%r" % (r.t_g, r.t_gg, exp_tg, exp_tgg), case)
+            return
+        lo_cur = (r.I_g + r.I_gg) / 2
+        hi_cur = r.I_gg * 1.5
+        t_lo = call(r, net, sw, lo_cur, "sc", 0.0, rng)["trip_melt_time_s"]
+        t_hi = call(r, net, sw, hi_cur, "sc", 0.0, rng)["trip_melt_time_s"]
+        if t_lo != r.t_g or t_hi != r.t_gg:
+            ctx.violation("spec", "current %r (between I> and I>>) trips after %r s, current %r (above I>>) after %r s; settings t>=%r t>>=%r" % (
+                lo_cur, t_lo, hi_cur, t_hi, r.t_g, r.t_gg), case)
+        elif t_hi > t_lo:
+            ctx.violation("spec", "the larger current trips later: t(%r)=%r > t(%r)=%r" % (hi_cur, t_hi, lo_cur, t_lo), case)
 
 
 def replay(ctx, rec):
